@@ -526,8 +526,11 @@ func (ndb *nodeDB) deleteVersion(version int64, cache *rootkeyCache) error {
 		// the root should be reformatted to (version, 0). It is written before the
 		// (version, 1) key is deleted: the batch may be flushed between the two
 		// operations, and the node must stay readable under one of its keys.
-		root.nodeKey.nonce = 0
-		if err := ndb.saveNodeFromPruning(root); err != nil {
+		// The node comes from the node cache and may be in use by concurrent readers of
+		// the next version: a copy is re-keyed, the shared node is left alone.
+		rekeyed := *root
+		rekeyed.nodeKey = &NodeKey{version: root.nodeKey.version, nonce: 0}
+		if err := ndb.saveNodeFromPruning(&rekeyed); err != nil {
 			return err
 		}
 		// ensure that the given version is not included in the root search
